@@ -652,6 +652,37 @@ class Idioms3(ast.NodeTransformer):
     def visit_Call(self, node):
         self.generic_visit(node)
         fn = norm(node.func)
+        # d.update([(k1, v1), (k2, v2)]) -> d.update({k1: v1, k2: v2})
+        if isinstance(node.func, ast.Attribute) and node.func.attr in (
+                "update", "restore") and len(node.args) == 1 and \
+                not node.keywords and isinstance(
+                    node.args[0], (ast.List, ast.Tuple)) and \
+                node.args[0].elts and all(
+                    isinstance(e, (ast.Tuple, ast.List)) and len(e.elts) == 2
+                    and isinstance(e.elts[0], ast.Constant)
+                    for e in node.args[0].elts):
+            node.args[0] = ast.copy_location(ast.Dict(
+                keys=[e.elts[0] for e in node.args[0].elts],
+                values=[e.elts[1] for e in node.args[0].elts]),
+                node.args[0])
+            return node
+        # operator.mul(a, b) -> a * b, operator.lt(a, b) -> a < b, ...
+        _OPS = {"mul": ast.Mult, "truediv": ast.Div, "add": ast.Add,
+                "sub": ast.Sub, "floordiv": ast.FloorDiv, "pow": ast.Pow,
+                "mod": ast.Mod, "and_": ast.BitAnd, "or_": ast.BitOr}
+        _CMP = {"lt": ast.Lt, "le": ast.LtE, "gt": ast.Gt, "ge": ast.GtE,
+                "eq": ast.Eq, "ne": ast.NotEq}
+        if fn.startswith("operator.") and len(node.args) == 2 and \
+                not node.keywords:
+            op_ = fn.split(".", 1)[1]
+            if op_ in _OPS:
+                return ast.copy_location(ast.BinOp(
+                    left=node.args[0], op=_OPS[op_](), right=node.args[1]),
+                    node)
+            if op_ in _CMP:
+                return ast.copy_location(ast.Compare(
+                    left=node.args[0], ops=[_CMP[op_]()],
+                    comparators=[node.args[1]]), node)
         # (lambda a, b: E)(x, y) -> E[a := x, b := y]
         if isinstance(node.func, ast.Lambda) and not node.keywords:
             la = node.func.args
@@ -4095,6 +4126,180 @@ def sentinel_gets(tree):
     if done:
         ast.fix_missing_locations(tree)
     return done
+
+
+def scalarise_local_dicts(fn):
+    """`d = {"a": e1, "b": e2}` bound once, read only as `d["a"]` /
+    `d["b"]` (it never leaves the function and is never written) -> one
+    local per entry."""
+    done = False
+    stores = {}
+    for n in ast.walk(fn):
+        if isinstance(n, ast.Name) and isinstance(n.ctx, (ast.Store,
+                                                          ast.Del)):
+            stores[n.id] = stores.get(n.id, 0) + 1
+    for par in [fn] + list(_walk_own(fn)):
+        for fld in ("body", "orelse", "finalbody"):
+            blk = getattr(par, fld, None)
+            if not isinstance(blk, list):
+                continue
+            for st in list(blk):
+                if not (isinstance(st, ast.Assign) and len(st.targets) == 1
+                        and isinstance(st.targets[0], ast.Name)
+                        and isinstance(st.value, ast.Dict)
+                        and st.value.keys and all(
+                            k is not None and isinstance(k, ast.Constant)
+                            and isinstance(k.value, str)
+                            and k.value.isidentifier()
+                            for k in st.value.keys)):
+                    continue
+                d = st.targets[0].id
+                keys = [k.value for k in st.value.keys]
+                if stores.get(d) != 1 or len(set(keys)) != len(keys):
+                    continue
+                refs = [n for n in ast.walk(fn) if isinstance(n, ast.Name)
+                        and n.id == d and isinstance(n.ctx, ast.Load)]
+                subs = [n for n in ast.walk(fn) if isinstance(
+                    n, ast.Subscript) and isinstance(n.value, ast.Name)
+                    and n.value.id == d and isinstance(n.ctx, ast.Load)
+                    and isinstance(n.slice, ast.Constant)
+                    and n.slice.value in keys]
+                if not refs or len(refs) != len(subs):
+                    continue
+                if any(isinstance(x, (ast.Lambda, ast.FunctionDef))
+                       and x is not fn and any(
+                           isinstance(n, ast.Name) and n.id == d
+                           for n in ast.walk(x)) for x in ast.walk(fn)):
+                    continue
+                taken = {n.id for n in ast.walk(fn)
+                         if isinstance(n, ast.Name)} | {
+                    a.arg for a in ast.walk(fn) if isinstance(a, ast.arg)}
+                names = {}
+                for k in keys:
+                    nm = f"{d}__{k}"
+                    while nm in taken:
+                        nm += "_"
+                    taken.add(nm)
+                    names[k] = nm
+                new = [ast.copy_location(ast.Assign(
+                    targets=[ast.Name(id=names[k.value], ctx=ast.Store())],
+                    value=v), st) for k, v in zip(st.value.keys,
+                                                  st.value.values)]
+                for sb in subs:
+                    _replace_in(fn, sb, ast.Name(id=names[sb.slice.value],
+                                                 ctx=ast.Load()))
+                i = blk.index(st)
+                blk[i:i + 1] = new
+                done = True
+    if done:
+        ast.fix_missing_locations(fn)
+    return done
+
+
+def unused_sentinel_params(tree):
+    """A private function's parameter whose default is a module-level
+    sentinel (`_UNSET = object()`) and that no call in the module ever
+    supplies: the parameter is dropped and the tests `p is _UNSET` /
+    `p is not _UNSET` become True / False."""
+    sent = set()
+    for st in tree.body:
+        if isinstance(st, ast.Assign) and len(st.targets) == 1 and \
+                isinstance(st.targets[0], ast.Name) and isinstance(
+                st.value, ast.Call) and norm(st.value) == "object()":
+            sent.add(st.targets[0].id)
+    if not sent:
+        return False
+    done = False
+    for fn in [n for n in ast.walk(tree) if isinstance(n, ast.FunctionDef)]:
+        if not (fn.name.startswith("_") and not fn.name.startswith("__")):
+            continue
+        a = fn.args
+        cands = []
+        pos = a.posonlyargs + a.args
+        for p_, d_ in zip(pos[len(pos) - len(a.defaults):], a.defaults):
+            if isinstance(d_, ast.Name) and d_.id in sent:
+                cands.append((p_, "pos", pos.index(p_)))
+        for p_, d_ in zip(a.kwonlyargs, a.kw_defaults):
+            if isinstance(d_, ast.Name) and d_.id in sent:
+                cands.append((p_, "kw", None))
+        if not cands:
+            continue
+        calls = [c for c in ast.walk(tree) if isinstance(c, ast.Call) and (
+            (isinstance(c.func, ast.Name) and c.func.id == fn.name) or
+            (isinstance(c.func, ast.Attribute) and c.func.attr == fn.name))]
+        other_refs = [n for n in ast.walk(tree) if (
+            (isinstance(n, ast.Name) and n.id == fn.name)
+            or (isinstance(n, ast.Attribute) and n.attr == fn.name))
+            and not any(c.func is n for c in calls)]
+        if other_refs or not calls:
+            continue
+        for p_, kind, idx in cands:
+            method = bool(pos) and pos[0].arg in ("self", "cls")
+            supplied = False
+            for c in calls:
+                if any(k.arg == p_.arg or k.arg is None for k in c.keywords):
+                    supplied = True
+                if any(isinstance(x, ast.Starred) for x in c.args):
+                    supplied = True
+                if kind == "pos":
+                    npos = len(c.args) + (1 if method and isinstance(
+                        c.func, ast.Attribute) else 0)
+                    if npos > idx:
+                        supplied = True
+            if supplied:
+                continue
+            if any(isinstance(n, ast.Name) and n.id == p_.arg and isinstance(
+                    n.ctx, ast.Load) and not any(
+                        isinstance(t, ast.Compare) and len(t.ops) == 1
+                        and isinstance(t.ops[0], (ast.Is, ast.IsNot))
+                        and (t.left is n or t.comparators[0] is n)
+                        for t in ast.walk(fn))
+                    and not _assigned_before_use(fn, p_.arg)
+                    for n in ast.walk(fn)):
+                continue
+            S = [d_ for q_, d_ in list(zip(
+                pos[len(pos) - len(a.defaults):], a.defaults)) + list(zip(
+                    a.kwonlyargs, a.kw_defaults)) if q_ is p_][0].id
+            for t in [t for t in ast.walk(fn) if isinstance(t, ast.Compare)
+                      and len(t.ops) == 1 and isinstance(
+                          t.ops[0], (ast.Is, ast.IsNot))
+                      and {norm(t.left), norm(t.comparators[0])} == {
+                          p_.arg, S}]:
+                _replace_in(fn, t, ast.Constant(
+                    value=isinstance(t.ops[0], ast.Is)))
+            if kind == "kw":
+                i = a.kwonlyargs.index(p_)
+                del a.kwonlyargs[i]
+                del a.kw_defaults[i]
+            else:
+                di = idx - (len(pos) - len(a.defaults))
+                del a.defaults[di]
+                (a.args if p_ in a.args else a.posonlyargs).remove(p_)
+            done = True
+    if done:
+        ast.fix_missing_locations(tree)
+    return done
+
+
+def _assigned_before_use(fn, name):
+    """every read of `name` in fn follows an unconditional-or-sentinel
+    assignment (cheap approximation: the first statement mentioning the
+    name is `if name is S: name = ...` or an assignment to it)"""
+    for st in fn.body:
+        if any(isinstance(n, ast.Name) and n.id == name
+               for n in ast.walk(st)):
+            if isinstance(st, ast.Assign) and any(
+                    norm(t) == name for t in st.targets):
+                return True
+            if isinstance(st, ast.If) and not st.orelse and len(
+                    st.body) == 1 and isinstance(
+                    st.body[0], ast.Assign) and norm(
+                    st.body[0].targets[0]) == name and isinstance(
+                    st.test, ast.Compare) and isinstance(
+                    st.test.ops[0], ast.Is) and norm(st.test.left) == name:
+                return True
+            return False
+    return True
 
 
 def conditional_pipelines(fn):
